@@ -160,6 +160,10 @@ class Model:
             for name, text in self.src.items():
                 self.mods[name] = ast.parse(text)
         _REAL_LINES.update(rewritten)
+        try:
+            inline.flatten_guards(self.mods)
+        except Exception:
+            pass
         self.classes = {}
         self.funcs = {}
         self.modfuncs = collections.defaultdict(dict)
